@@ -159,6 +159,8 @@ func (s *Service) AttestAndScheduleAggregate(ctx context.Context, duty *attester
 		return
 	}
 
+	// Committees for which an aggregation job has already been set up.
+	aggregating := make(map[phase0.CommitteeIndex]bool)
 	for _, attestation := range attestations {
 		log := log.With().Uint64("attestation_slot", uint64(attestation.Data.Slot)).Uint64("committee_index", uint64(attestation.Data.Index)).Logger()
 		slotInfoMap, exists := subscriptionInfoMap[attestation.Data.Slot]
@@ -178,7 +180,7 @@ func (s *Service) AttestAndScheduleAggregate(ctx context.Context, duty *attester
 			continue
 		}
 		log = log.With().Uint64("validator_index", uint64(info.Duty.ValidatorIndex)).Logger()
-		if info.IsAggregator {
+		if info.IsAggregator && !aggregating[attestation.Data.Index] {
 			accounts, err := s.validatingAccountsProvider.ValidatingAccountsForEpochByIndex(ctx, epoch, []phase0.ValidatorIndex{info.Duty.ValidatorIndex})
 			if err != nil {
 				// Don't return here; we want to try to set up as many aggregator jobs as possible.
@@ -213,8 +215,9 @@ func (s *Service) AttestAndScheduleAggregate(ctx context.Context, duty *attester
 				continue
 			}
 			// We are set up as an aggregator for this slot and committee.  It is possible that another validator has also been
-			// assigned as an aggregator, but we're already carrying out the task so do not need to go any further.
-			return
+			// assigned as an aggregator, but we're already carrying out the task so do not need to go any further for this
+			// committee.  Other committees of the slot may still need their own aggregation job.
+			aggregating[attestation.Data.Index] = true
 		}
 	}
 }
